@@ -105,13 +105,25 @@ impl G {
                     }
                 }
                 for _ in 0..n {
-                    atoms.push(match self.r.below(8) {
+                    let mut a = match self.r.below(11) {
                         0 => json!({"t":"dot"}),
                         1 => json!({"t":"star"}),
                         2 => json!({"t":"lazy"}),
                         3 => json!({"t":"c","c":46}),
+                        4 => json!({"t":"cls","n":*self.r.pick(&["d", "D", "s", "S", "w", "W"])}),
+                        5 => {
+                            let k = 1 + self.r.below(2);
+                            let cs: Vec<u32> = (0..k).map(|_| *self.r.pick(ALPHA_SMALL) as u32).collect();
+                            json!({"t":"set","cs":cs,"neg":self.r.chance(1, 3)})
+                        }
                         _ => json!({"t":"c","c": *self.r.pick(ALPHA_SMALL) as u32}),
-                    });
+                    };
+                    // repetition on a one-character atom (`.*` is the star atom)
+                    if a["t"] != "star" && a["t"] != "lazy" && self.r.chance(1, 4) {
+                        let reps: &[&str] = if a["t"] == "dot" { &["+", "?"] } else { &["+", "?", "*"] };
+                        a["rep"] = json!(*self.r.pick(reps));
+                    }
+                    atoms.push(a);
                 }
                 if self.r.chance(1, 5) {
                     if self.r.chance(1, 2) {
@@ -156,11 +168,20 @@ impl G {
             let mut s = String::new();
             if let Some(atoms) = p["a"].as_array() {
                 for a in atoms {
-                    match a["t"].as_str().unwrap_or("") {
-                        "c" => s.push(char::from_u32(a["c"].as_u64().unwrap_or(97) as u32).unwrap_or('a')),
-                        "dot" => s.push(*self.r.pick(ALPHA_SMALL)),
-                        "star" | "lazy" => s.push_str(&self.word(2, true)),
-                        _ => {}
+                    // how often a repeated atom occurs in the near-match: 0, 1 or 2 times
+                    let times = match a["rep"].as_str() { Some("+") => 1 + self.r.below(2), Some("?") => self.r.below(2), Some("*") => self.r.below(3), _ => 1 };
+                    for _ in 0..times {
+                        match a["t"].as_str().unwrap_or("") {
+                            "c" => s.push(char::from_u32(a["c"].as_u64().unwrap_or(97) as u32).unwrap_or('a')),
+                            "dot" => s.push(*self.r.pick(ALPHA_SMALL)),
+                            "cls" => s.push(*self.r.pick(&['1', ' ', 'a', '-', 'é', '_', '\n', 'B'])),
+                            "set" => {
+                                let members: Vec<char> = a["cs"].as_array().map(|v| v.iter().filter_map(|c| char::from_u32(c.as_u64().unwrap_or(97) as u32)).collect()).unwrap_or_default();
+                                if self.r.chance(2, 3) && !members.is_empty() { s.push(*self.r.pick(&members)) } else { s.push(*self.r.pick(ALPHA_SMALL)) }
+                            }
+                            "star" | "lazy" => s.push_str(&self.word(2, true)),
+                            _ => {}
+                        }
                     }
                 }
             }
